@@ -137,3 +137,23 @@ def getkey_response(c, n):
         return "error"
     c.check(all_of([hr == 0, seq_eq(c.call(y.pack), env), struct_eq(y.l2_key, k2), y.l0 == ints["l0"], y.domain_name == "d.t", y.forest_name == "f.t"]), "getkey: response decoded")
     return len(data)
+
+
+@harness(P, params=lambda tier: [dict(n=n, pad=p) for n in (range(0, 8) if tier == "quick" else range(0, 18)) for p in ([None, 0, 4, 12, 15] if tier == "quick" else [None] + list(range(16)))],
+         bounds="_process_get_key_result on a decrypted Response whose stub is the NDR64 reply (envelope length residues 0..7 / 0..17) followed by `pad` zero octets, with a security "
+         "trailer declaring pad_length = pad (0..15) or without a security trailer: the envelope is extracted unchanged", must_reach=("getkey result: declared auth padding stripped, envelope extracted",))
+def getkey_result(c, n, pad):
+    from dpapi_ng import _client
+    from dpapi_ng._rpc import _pdu, _request
+
+    ints = {k: c.int(k, 0, U32) for k in ("version", "flags", "l0", "l1", "l2")}
+    rk, rkb = U(c, "rkid")
+    k2 = c.bytes("l2key", n)
+    env = refs.ref_group_key_envelope(ints["version"], ints["flags"], ints["l0"], ints["l1"], ints["l2"], rkb, "SP800_108_CTR_HMAC", b"P" * 30, "DH", b"", 512, 2048, "d.t", "f.t", b"", k2)
+    reply = refs.ref_getkey_response(env, 0)
+    tr = None if pad is None else _pdu.SecTrailer(_pdu.SecurityProvider.RPC_C_AUTHN_GSS_NEGOTIATE, _pdu.AuthenticationLevel.RPC_C_AUTHN_LEVEL_PKT_PRIVACY, pad, 0, b"\x00" * 16)
+    stub = refs.cat(reply, bytes(pad or 0))
+    resp = _request.Response(_pdu.PDUHeader(5, 0, _pdu.PacketType.RESPONSE, _pdu.PacketFlags(3), _pdu.DataRep(), 0, 16 if tr else 0, 1), tr, len(stub), 0, 0, stub)
+    y = c.call(_client._process_get_key_result, resp)
+    c.check(all_of([seq_eq(c.call(y.pack), env), struct_eq(y.l2_key, k2), y.l1 == ints["l1"]]), "getkey result: declared auth padding stripped, envelope extracted")
+    return len(stub)
